@@ -52,12 +52,15 @@ pub fn cmd_marathon(n_ops: u64, mode: u8) -> Result<i32, String> {
     let n_sets: u64 = if n_ops > (1u64 << 31) { (1 << 24) + 1000 } else { (1 << 17) + 1000 };
     // a bystander thread with another mode, alive for the whole marathon
     let (btx, brx) = channel::<()>();
+    let (rtx, rrx) = channel::<()>();
     let other = (mode + 3) % 8;
     let bystander = std::thread::spawn(move || {
         RoundingMode::set_default(MODES[other as usize]);
+        let _ = rtx.send(()); // only now may the marathon start: no real-time overlap
         let _ = brx.recv();
         mode_index(RoundingMode::default())
     });
+    let _ = rrx.recv();
     let runner = std::thread::spawn(move || -> Result<(), String> {
         let first = mode_index(RoundingMode::default());
         if first != crate::ops::HALF_EVEN {
